@@ -18,6 +18,7 @@ import (
 	"net"
 	"os"
 	"path/filepath"
+	"runtime"
 	"sort"
 	"strconv"
 	"strings"
@@ -758,6 +759,12 @@ func (w *VerifWorld) barrier() (Stats, error) {
 		return st, nil
 	case <-time.After(5 * time.Second):
 		w.dead = true
+		if d := os.Getenv("VERIF_DUMP_DIR"); d != "" {
+			// keep the goroutine stacks of a loop that stopped responding: they are the evidence of the hang
+			buf := make([]byte, 4<<20)
+			n := runtime.Stack(buf, true)
+			_ = os.WriteFile(filepath.Join(d, fmt.Sprintf("hang-%d-%d.txt", os.Getpid(), time.Now().UnixNano()%1000000)), buf[:n], 0o644)
+		}
 		return Stats{}, errVerifHang
 	}
 }
